@@ -447,5 +447,5 @@ Theorem unwind_queue_spec q : forall w,
 Proof.
   unfold unwind_queue. induction q as [|it q IH]; intros w; cbn [fold_left flat_map]; [now rewrite app_nil_r|].
   set (tag := if qi_targeted it then _ else _). destruct (ev_drop_spec w (qi_targeted it) tag (qi_ev it)) as (A & B & C).
-  rewrite IH, A, <- app_assoc. f_equal. f_equal; [reflexivity|]. apply flat_map_ext. intros it'. unfold item_tag. now rewrite B, C.
+  rewrite IH, A, <- app_assoc. f_equal. change (item_tag w it) with tag. f_equal. apply flat_map_ext. intros it'. unfold item_tag. now rewrite B, C.
 Qed.
